@@ -924,6 +924,14 @@ pub const MODULE_STATES: &[(&str, &str)] = &[
     ("only-constant", "5"),
     ("whitespace-only", "   \n\t\n"),
     ("shadows-importer", "z := \"mine\"; w := z"),
+    // files that end inside a multi-byte character / with a bad continuation byte
+    ("truncated-utf8-2", ""),
+    ("truncated-utf8-3", ""),
+    ("truncated-utf8-4", ""),
+    ("bad-continuation", ""),
+    // refers to a name of the importer (the imported file is checked on top of the importer's scope
+    // AT THE POSITION of the import): no claim about its names unless the form defines `outer_x`
+    ("uses-importer-name", "y := outer_x + 1"),
     // every statement form of docs/statements.md in one imported file (value, type and default
     // arms of match, if-set, while-set, for, loop, destructuring, struct, module, type filter, slice)
     ("all-constructs", "v := match 5 { x: float => 1, 5, 6 => 2, => 3, }; w := if y: int = v { y } else { 0 }; (p, q) := (1, \"s\"); st := struct{a := p, b := q}; m := mod { k := 1 }; fn1 := (x: int|string) -> int { return match x { 1 => 10, \"a\", \"b\" => 20, i: int => i, s: string => 0, } }; acc := mut 0; for e in [1, 2, 3]~ { acc += e }; i := mut 0; loop { i += 1; if *i > 2 { break } }; while *i > 0 { i -= 1 }; n := mut 3; while t: int = *n { n -= 1; if t < 2 { break } }; fl := ([1, \"a\", 2.5]~ ? int) $]; sl := [1, 2, 3][1:]"),
@@ -955,7 +963,19 @@ pub const IMPORT_FORMS: &[&str] = &[
     "g := () -> int { m := import \"p\"; return m.a + m.f(1) }; (g(), g())",
     // the importer's own names must not leak into the module, nor be changed by it
     "z := 9; y := \"keep\"; m := import \"p\"; (m, z, y)",
+    // paths that name a directory without a final normal component (these four ignore p's content)
+    "import \"..\"",
+    "m := import \".\"; m",
+    "import \"/\"",
+    "import \"p/..\"",
+    // the position of the import decides which of the importer's names the file sees
+    "outer_x := 1; m := import \"p\"; m.y",
+    "outer_x := 1; { outer_x := 2; m := import \"p\"; m.y }",
+    "outer_x := \"top\"; f := (outer_x: int) -> int { m := import \"p\"; return m.y }; f(5)",
+    "k := mod { outer_x := 10; m := import \"p\" }; k.m.y",
 ];
+/// forms up to this index import `p` (and possibly `q`) and use at most the members a / s / f
+const LAST_PLAIN_FORM: usize = 9;
 
 /// What a fault-free case must evaluate to (canonical value text) when its files are valid.
 fn expected_value(form: usize, p: &str, q: &str) -> Option<&'static str> {
@@ -963,6 +983,10 @@ fn expected_value(form: usize, p: &str, q: &str) -> Option<&'static str> {
         (6, "valid", _) => Some("(1,1,\"t\",2)"),
         (7, "nested", "valid") => Some("(1,1,1,2,\"t\")"),
         (8, "valid", _) => Some("(3,3)"),
+        (14, "uses-importer-name", _) => Some("2"),
+        (15, "uses-importer-name", _) => Some("3"),
+        (16, "uses-importer-name", _) => Some("6"),
+        (17, "uses-importer-name", _) => Some("11"),
         _ => None,
     }
 }
@@ -984,6 +1008,10 @@ fn module_node(state: usize) -> Option<Node> {
         "absent" => None,
         "directory" => Some(Node::Dir),
         "non-utf8" => Some(Node::File(vec![b'a', 0xff, 0xfe])),
+        "truncated-utf8-2" => Some(Node::File(b"a := 1 // \xc5".to_vec())),
+        "truncated-utf8-3" => Some(Node::File(b"a := \"x\"\n\xe2\x82".to_vec())),
+        "truncated-utf8-4" => Some(Node::File(b"\xf0\x9f\x98".to_vec())),
+        "bad-continuation" => Some(Node::File(b"a := 1 // \xc5 x\n".to_vec())),
         _ => Some(Node::File(MODULE_STATES[state].1.as_bytes().to_vec())),
     }
 }
@@ -1057,6 +1085,7 @@ pub fn run_import_case(case: &ImportCase, key_seed: u64) -> RunReport {
                 let uses_members = matches!(case.form, 6 | 8);
                 if case.fault.is_none()
                     && case.form != 7
+                    && case.form <= LAST_PLAIN_FORM
                     && module_names(MODULE_STATES[case.p_state].0).is_some()
                     && q_ok
                     && (!uses_members || MODULE_STATES[case.p_state].0 == "valid")
